@@ -8,7 +8,7 @@ import (
 )
 
 func init() {
-	Register(&Scenario{Prop: "C15", Name: "load-limit", Run: scenC15, Weight: 1,
+	Register(&Scenario{Prop: "C15", Name: "load-limit", Run: scenC15, SoftParks: true, Weight: 1,
 		Rule: "node T persists a log of 1-9 (thorough 1-20) entries: single-writer chain, or several heads built from local writes plus entries replicated from 1-2 feeders under reorder; T is closed; then for EVERY limit n in {-3,-1,0,1,...,total+3}, given per call or through the MaxHistory option, the final durable image is reopened in isolation and Load(n) runs; oracle: n>0 => exactly min(n,total) entries visible, in an order consistent with the full listing, newest entry included, and for a single-writer log exactly the n most recent; n<=0 => everything; never a panic or an error on a short log; one evaluation = one persisted log with all its limits; non-trivial = total>=3 and at least one limit strictly inside (0,total) and one beyond total"})
 }
 
